@@ -533,7 +533,7 @@ theorem refuseStream_len (c : H2Conn) (sid : Nat) : (refuseStream c sid).1.strea
   split
   · simp
   · simp only
-    split <;> split <;> simp
+    split <;> simp
 
 theorem recvTrailers_len (c : H2Conn) (sid : Nat) (kind : HdrKind) (es : Bool) :
     (recvTrailers c sid kind es).1.streams.length = c.streams.length := by
@@ -673,5 +673,466 @@ theorem processQuiesce_len_le : ∀ (fuel : Nat) (c : H2Conn),
     split
     · exact processPass_len_le c 262144
     · exact Nat.le_trans (ihn _) (processPass_len_le c 262144)
+
+
+/-! ### observable form of a connection error -/
+
+theorem foldl_rstState_cid_goaway : ∀ (l : List Strm) (c' : H2Conn),
+    (l.foldl (fun c s => rstState c s.id) c').cid = c'.cid ∧
+    (l.foldl (fun c s => rstState c s.id) c').goaway = c'.goaway := by
+  intro l
+  induction l with
+  | nil => intro c'; exact ⟨rfl, rfl⟩
+  | cons x xs ih =>
+    intro c'
+    simp only [List.foldl_cons]
+    have h1 := ih (rstState c' x.id)
+    have h2 : (rstState c' x.id).cid = c'.cid ∧ (rstState c' x.id).goaway = c'.goaway := by
+      unfold rstState
+      split
+      · exact ⟨rfl, rfl⟩
+      · simp only [updStrm]; split <;> exact ⟨rfl, rfl⟩
+    exact ⟨h1.1.trans h2.1, h1.2.trans h2.2⟩
+
+theorem goawayResets_cid_goaway (c : H2Conn) (code : Nat) :
+    (goawayResets c code).1.cid = c.cid ∧ (goawayResets c code).1.goaway = c.goaway := by
+  unfold goawayResets
+  split
+  · exact foldl_rstState_cid_goaway _ _
+  · exact ⟨rfl, rfl⟩
+
+/-- **a connection error is visible**: while no error GOAWAY is out, raising one emits
+    GOAWAY(last stream id, code) and leaves the connection in the terminal state -/
+theorem sendGoaway_observable (c : H2Conn) (code : Nat) (hc : code ≠ 0) (hg : c.goaway ≤ 0) :
+    Out.goaway c.cid code ∈ (sendGoaway c code).2 ∧ (sendGoaway c code).1.goaway = (code : Int) ∧
+    (sendGoaway c code).1.goaway > 0 := by
+  have hcg := goawayResets_cid_goaway c code
+  have hgo := sendGoaway_goaway c code hc hg
+  refine ⟨?_, hgo, by rw [hgo]; omega⟩
+  unfold sendGoaway
+  simp only
+  have : ¬ ((goawayResets c code).1.goaway ≠ 0 ∧ ((goawayResets c code).1.goaway > 0 ∨ code = 0)) := by
+    rw [hcg.2]; intro ⟨_, h⟩; rcases h with h | h
+    · omega
+    · exact hc h
+  rw [if_neg this]
+  simp [hcg.1]
+
+/-! ### outbound frame sizes -/
+
+/-- payload octets of an emitted frame (a response header block is framed by `hpackSplit`) -/
+def Out.payloadLen : Out → Nat
+  | .settingsAck => 0
+  | .pingAck _ => 8
+  | .goaway _ _ => 8
+  | .rst _ _ => 4
+  | .windowUpdate _ _ => 4
+  | .headers _ _ _ => 0
+  | .data _ len _ => len
+
+theorem dataSplit_le (file : Bool) (fsize : Nat) : ∀ (fuel n x : Nat), x ∈ dataSplit file fsize fuel n → x ≤ fsize := by
+  intro fuel
+  induction fuel with
+  | zero => intro n x h; simp [dataSplit] at h
+  | succ f ih =>
+    intro n x h
+    cases n with
+    | zero => simp [dataSplit] at h
+    | succ m =>
+      simp only [dataSplit, List.mem_cons] at h
+      rcases h with h | h
+      · subst h
+        split
+        · omega
+        · split <;> omega
+      · exact ih _ _ h
+
+theorem dataSplit_sum (file : Bool) (fsize : Nat) (hf : fsize > 9) : ∀ (fuel n : Nat), n ≤ fuel →
+    (dataSplit file fsize fuel n).sum = n := by
+  intro fuel
+  induction fuel with
+  | zero => intro n h; have : n = 0 := by omega
+            subst this; rfl
+  | succ f ih =>
+    intro n h
+    cases n with
+    | zero => rfl
+    | succ m =>
+      simp only [dataSplit, List.sum_cons]
+      by_cases h1 : m + 1 < fsize
+      · simp only [h1, if_true]
+        rw [ih _ (by omega)]; omega
+      · simp only [h1, if_false]
+        cases file
+        · simp only [Bool.false_eq_true, if_false]
+          rw [ih _ (by omega)]; omega
+        · simp only [if_true]
+          rw [ih _ (by omega)]; omega
+
+theorem hpackSplit_le (fsize : Nat) : ∀ (fuel n x : Nat), n ≤ fsize * (fuel + 1) → x ∈ hpackSplit fsize fuel n → x ≤ fsize := by
+  intro fuel
+  induction fuel with
+  | zero => intro n x hn h; simp [hpackSplit] at h; subst h; omega
+  | succ f ih =>
+    intro n x hn h
+    unfold hpackSplit at h
+    split at h
+    · simp at h; subst h; assumption
+    · simp only [List.mem_cons] at h
+      rcases h with h | h
+      · omega
+      · refine ih _ _ ?_ h
+        have : fsize * (f + 1 + 1) = fsize * (f + 1) + fsize := by rw [Nat.mul_succ]
+        omega
+
+theorem hpackSplit_sum (fsize : Nat) : ∀ (fuel n : Nat), (hpackSplit fsize fuel n).sum = n := by
+  intro fuel
+  induction fuel with
+  | zero => intro n; simp [hpackSplit]
+  | succ f ih =>
+    intro n
+    unfold hpackSplit
+    split
+    · simp
+    · simp only [List.sum_cons, ih]; omega
+
+theorem endStream_payload (s : Strm) : ∀ o ∈ (endStream s).1, o.payloadLen ≤ 4 := by
+  intro o ho
+  unfold endStream at ho
+  split at ho
+  · simp at ho
+  · split at ho
+    · simp at ho; subst ho; simp [Out.payloadLen]
+    · simp only at ho
+      split at ho <;> split at ho <;> simp at ho
+      all_goals (first | (rcases ho with h | h <;> subst h <;> simp [Out.payloadLen]) | (subst ho; simp [Out.payloadLen]))
+
+theorem sendHdrs_payload (s : Strm) : ∀ o ∈ (sendHdrs s).2, o.payloadLen = 0 := by
+  intro o ho
+  unfold sendHdrs at ho
+  split at ho
+  · simp at ho
+  · simp at ho; subst ho; rfl
+
+/-- every frame of a stream's turn fits the limit given to it -/
+theorem strmTurn_payload (fsize : Nat) (cswin : Int) (budget : Nat) (s : Strm) (hf : 4 ≤ fsize) :
+    ∀ o ∈ (strmTurn fsize cswin budget s).2.1, o.payloadLen ≤ fsize := by
+  intro o ho
+  unfold strmTurn at ho
+  split at ho
+  · exact Nat.le_trans (endStream_payload s o ho) hf
+  · simp only at ho
+    split at ho
+    · simp only [List.mem_append, List.mem_map] at ho
+      rcases ho with (h | h) | h
+      · rw [sendHdrs_payload s o h]; omega
+      · obtain ⟨l, hl, rfl⟩ := h
+        exact dataSplit_le _ _ _ _ _ hl
+      · exact Nat.le_trans (endStream_payload _ o h) hf
+    · simp only [List.mem_append, List.mem_map] at ho
+      rcases ho with h | h
+      · rw [sendHdrs_payload s o h]; omega
+      · obtain ⟨l, hl, rfl⟩ := h
+        exact dataSplit_le _ _ _ _ _ hl
+
+theorem passAux_payload (fsize : Nat) (hf : 4 ≤ fsize) : ∀ (ss : List Strm) (cswin : Int) (budget : Nat),
+    ∀ o ∈ (passAux fsize cswin budget ss).outs, o.payloadLen ≤ fsize := by
+  intro ss
+  induction ss with
+  | nil => intro _ _ o ho; simp [passAux] at ho
+  | cons s rest ih =>
+    intro cswin budget o ho
+    simp only [passAux] at ho
+    have ht := strmTurn_payload fsize cswin budget s hf
+    generalize strmTurn fsize cswin budget s = t at ho ht
+    obtain ⟨t1, t2, t3, t4⟩ := t
+    simp only [List.mem_append] at ho
+    rcases ho with h | h
+    · exact ht o h
+    · exact ih _ _ o h
+
+theorem processPass_payload (c : H2Conn) (budget : Nat) (hf : 4 ≤ c.peerMaxFrame) :
+    ∀ o ∈ (processPass c budget).2, o.payloadLen ≤ c.peerMaxFrame := by
+  intro o ho
+  unfold processPass at ho
+  split at ho
+  · simp at ho
+  · split at ho
+    · simp at ho
+    · exact passAux_payload _ hf _ _ _ o ho
+
+theorem ctl_payload (o : Out) (h : o.isCtl = true) : o.payloadLen ≤ 8 := by
+  cases o <;> simp [Out.isCtl] at h <;> simp [Out.payloadLen]
+
+/-- the peer's SETTINGS_MAX_FRAME_SIZE the server works with stays in the RFC 9113 range -/
+def FsOk (c : H2Conn) : Prop := 16384 ≤ c.peerMaxFrame ∧ c.peerMaxFrame ≤ 16777215
+
+theorem rstState_fs (c : H2Conn) (sid : Nat) : (rstState c sid).peerMaxFrame = c.peerMaxFrame := by
+  unfold rstState
+  split
+  · rfl
+  · simp only [updStrm]; split <;> rfl
+
+theorem foldl_rstState_fs : ∀ (l : List Strm) (c : H2Conn),
+    (l.foldl (fun c s => rstState c s.id) c).peerMaxFrame = c.peerMaxFrame := by
+  intro l
+  induction l with
+  | nil => intro c; rfl
+  | cons x xs ih => intro c; simp only [List.foldl_cons]; rw [ih, rstState_fs]
+
+theorem sendGoaway_fs (c : H2Conn) (code : Nat) : (sendGoaway c code).1.peerMaxFrame = c.peerMaxFrame := by
+  have h : (goawayResets c code).1.peerMaxFrame = c.peerMaxFrame := by
+    unfold goawayResets
+    split
+    · exact foldl_rstState_fs _ _
+    · rfl
+  unfold sendGoaway
+  simp only
+  split
+  · exact h
+  · exact h
+
+theorem applySettings_fs : ∀ (ps : List (Nat × Nat)) (c : H2Conn), FsOk c → FsOk (applySettings c ps).1 := by
+  intro ps
+  induction ps with
+  | nil => intro c h; simpa [applySettings] using h
+  | cons p rest ih =>
+    intro c h
+    obtain ⟨k, v⟩ := p
+    unfold applySettings
+    split
+    · unfold FsOk; rw [sendGoaway_fs]; exact h
+    · split
+      · split
+        · unfold FsOk; rw [sendGoaway_fs]; exact h
+        · split
+          · unfold FsOk; rw [sendGoaway_fs]; exact h
+          · exact ih _ h
+      · split
+        · split
+          · unfold FsOk; rw [sendGoaway_fs]; exact h
+          · rename_i hv
+            exact ih _ (by unfold FsOk; simp only; omega)
+        · exact ih _ h
+
+
+@[simp] theorem updStrm_fs (c : H2Conn) (sid : Nat) (f : Strm → Strm) : (updStrm c sid f).peerMaxFrame = c.peerMaxFrame := rfl
+@[simp] theorem connWinUpd_fs (c : H2Conn) (len : Nat) : (connWinUpd c len).1.peerMaxFrame = c.peerMaxFrame := rfl
+attribute [simp] rstState_fs sendGoaway_fs
+
+@[simp] theorem discardHeaders_fs (c : H2Conn) : (discardHeaders c).1.peerMaxFrame = c.peerMaxFrame := by
+  unfold discardHeaders
+  split
+  · rfl
+  · simp only; split <;> simp
+
+@[simp] theorem recvEndData_fs (c : H2Conn) (s : Strm) (alen : Nat) :
+    (recvEndData c s alen).1.peerMaxFrame = c.peerMaxFrame := by
+  unfold recvEndData
+  simp only
+  split
+  · simp
+  · split <;> simp
+
+theorem recvDataStream_fs (c : H2Conn) (s : Strm) (sid len alen : Nat) (es : Bool) :
+    (recvDataStream c s sid len alen es).1.peerMaxFrame = c.peerMaxFrame := by
+  unfold recvDataStream
+  split
+  · simp
+  · simp only
+    split
+    · simp
+    · by_cases hes : es = true
+      · simp only [hes, if_true]
+        split <;> simp
+      · simp [hes]
+
+theorem recvData_fs (c : H2Conn) (sid len : Nat) (pad : Option Nat) (es : Bool) :
+    (recvData c sid len pad es).1.peerMaxFrame = c.peerMaxFrame := by
+  unfold recvData
+  split
+  · simp
+  · split
+    · simp
+    · split
+      · split
+        · simp
+        · split
+          · rfl
+          · split
+            · rfl
+            · simp
+      · exact recvDataStream_fs _ _ _ _ _ _
+
+theorem andThen_fs (r : Res) (f : H2Conn → Res) (hf : ∀ c, (f c).1.peerMaxFrame = c.peerMaxFrame) :
+    (r.andThen f).1.peerMaxFrame = r.1.peerMaxFrame := by
+  simp [Res.andThen, hf]
+
+theorem refuseStream_fs (c : H2Conn) (sid : Nat) : (refuseStream c sid).1.peerMaxFrame = c.peerMaxFrame := by
+  unfold refuseStream
+  split
+  · simp
+  · simp only
+    split <;> simp
+
+theorem recvTrailers_fs (c : H2Conn) (sid : Nat) (kind : HdrKind) (es : Bool) :
+    (recvTrailers c sid kind es).1.peerMaxFrame = c.peerMaxFrame := by
+  unfold recvTrailers
+  split
+  · rw [andThen_fs _ _ discardHeaders_fs]; simp
+  · split
+    · rw [andThen_fs _ _ discardHeaders_fs]; simp
+    · split
+      · rw [andThen_fs _ _ discardHeaders_fs]; simp
+      · simp only
+        split
+        · split
+          · rw [andThen_fs _ _ (fun c => sendGoaway_fs c _)]; simp
+          · simp
+        · rw [andThen_fs _ _ discardHeaders_fs]; simp
+
+theorem recvHeaders_fs (c : H2Conn) (sid : Nat) (kind : HdrKind) (es : Bool) (dep : Option Nat) (padBad : Bool) :
+    (recvHeaders c sid kind es dep padBad).1.peerMaxFrame = c.peerMaxFrame := by
+  unfold recvHeaders
+  split
+  · simp
+  · split
+    · simp
+    · split
+      · simp
+      · split
+        · exact recvTrailers_fs _ _ _ _
+        · split
+          · simp
+          · split
+            · rw [andThen_fs _ _ discardHeaders_fs, refuseStream_fs]
+            · unfold newStream
+              split
+              · simp [addStrm]
+              · simp [addStrm]
+
+theorem recvPing_fs (c : H2Conn) (ack : Bool) (sid len : Nat) (o : Bytes) :
+    (recvPing c ack sid len o).1.peerMaxFrame = c.peerMaxFrame := by
+  unfold recvPing
+  repeat' split
+  all_goals simp
+
+theorem recvWindowUpdate_fs (c : H2Conn) (sid len inc : Nat) :
+    (recvWindowUpdate c sid len inc).1.peerMaxFrame = c.peerMaxFrame := by
+  unfold recvWindowUpdate
+  repeat' split
+  all_goals simp
+
+theorem recvRstStream_fs (c : H2Conn) (sid len : Nat) :
+    (recvRstStream c sid len).1.peerMaxFrame = c.peerMaxFrame := by
+  unfold recvRstStream
+  repeat' split
+  all_goals simp
+
+theorem recvPriority_fs (c : H2Conn) (sid len dep : Nat) :
+    (recvPriority c sid len dep).1.peerMaxFrame = c.peerMaxFrame := by
+  unfold recvPriority
+  repeat' split
+  all_goals simp
+
+theorem recvPriorityUpdate_fs (c : H2Conn) (sid len prid prio : Nat) :
+    (recvPriorityUpdate c sid len prid prio).1.peerMaxFrame = c.peerMaxFrame := by
+  unfold recvPriorityUpdate
+  repeat' split
+  all_goals simp
+
+theorem recvGoaway_fs (c : H2Conn) (sid len code : Nat) :
+    (recvGoaway c sid len code).1.peerMaxFrame = c.peerMaxFrame := by
+  unfold recvGoaway
+  repeat' split
+  all_goals simp
+
+/-- the limit stays in range whatever arrives -/
+theorem recvFrame_fs (c : H2Conn) (f : FrameIn) (h : FsOk c) : FsOk (recvFrame c f).1 := by
+  have keep : ∀ c' : H2Conn, c'.peerMaxFrame = c.peerMaxFrame → FsOk c' := by
+    intro c' e; unfold FsOk; rw [e]; exact h
+  unfold recvFrame
+  split
+  · exact h
+  · cases f with
+    | oversize => exact keep _ (by simp)
+    | settings ack sid ps junk =>
+      simp only
+      unfold recvSettings
+      split
+      · exact keep _ (by simp)
+      · split
+        · simp only
+          have h1 := applySettings_fs ps c h
+          split
+          · unfold FsOk; simp only [sendGoaway_fs]; exact h1
+          · exact h1
+        · split
+          · exact keep _ (by simp)
+          · split
+            · exact keep _ rfl
+            · exact keep _ (by simp)
+    | ping ack sid len o => exact keep _ (recvPing_fs _ _ _ _ _)
+    | windowUpdate sid len inc => exact keep _ (recvWindowUpdate_fs _ _ _ _)
+    | rstStream sid len code => exact keep _ (recvRstStream_fs _ _ _)
+    | priority sid len dep => exact keep _ (recvPriority_fs _ _ _ _)
+    | priorityUpdate sid len prid prio => exact keep _ (recvPriorityUpdate_fs _ _ _ _ _)
+    | goaway sid len code => exact keep _ (recvGoaway_fs _ _ _ _)
+    | data sid len pad es => exact keep _ (recvData_fs _ _ _ _ _)
+    | headers sid kind es dep padBad contBad =>
+      simp only
+      split
+      · exact keep _ (by simp)
+      · exact keep _ (recvHeaders_fs _ _ _ _ _ _)
+    | continuation sid => exact keep _ (by simp)
+    | pushPromise sid => exact keep _ (by simp)
+    | unknown t => exact h
+    | contFlood => exact keep _ (by simp)
+
+theorem processPass_fs (c : H2Conn) (budget : Nat) : (processPass c budget).1.peerMaxFrame = c.peerMaxFrame := by
+  unfold processPass
+  split
+  · rfl
+  · split <;> rfl
+
+theorem preSlot_fs : ∀ (fuel : Nat) (c : H2Conn) (f : FrameIn), (preSlot fuel c f).1.peerMaxFrame = c.peerMaxFrame := by
+  intro fuel
+  induction fuel with
+  | zero => intro c f; rfl
+  | succ n ih =>
+    intro c f
+    unfold preSlot
+    split
+    · simp only; rw [ih, processPass_fs]
+    · rfl
+
+theorem postStop_fs (c : H2Conn) : (postStop c).1.peerMaxFrame = c.peerMaxFrame := by
+  unfold postStop
+  split
+  · rw [processPass_fs]
+  · rfl
+
+theorem recvBatch_fs : ∀ (fs : List FrameIn) (c : H2Conn), FsOk c → FsOk (recvBatch c fs).1 := by
+  intro fs
+  induction fs with
+  | nil => intro c h; simpa [recvBatch] using h
+  | cons f fs ih =>
+    intro c h
+    simp only [recvBatch]
+    apply ih
+    have h0 : FsOk (preSlot 4096 c f).1 := by unfold FsOk; rw [preSlot_fs]; exact h
+    have h1 := recvFrame_fs _ f h0
+    unfold FsOk; rw [postStop_fs]; exact h1
+
+theorem processQuiesce_fs : ∀ (fuel : Nat) (c : H2Conn), (processQuiesce fuel c).1.peerMaxFrame = c.peerMaxFrame := by
+  intro fuel
+  induction fuel with
+  | zero => intro c; rfl
+  | succ n ih =>
+    intro c
+    simp only [processQuiesce]
+    split
+    · exact processPass_fs _ _
+    · simp only; rw [ih, processPass_fs]
 
 end LtVerif
